@@ -194,3 +194,52 @@ Section UpProb.
     rewrite (upscale_factor_sq ora sv var nugget Hsv Hs). field. lra.
   Qed.
 End UpProb.
+
+(* ---------- exact VALUE-scale equivariance of the generator formulas: a model with variance s var and nugget s nugget gives
+   sqrt(s) times the field of the model with (var, nugget) for the same draws — whatever the magnitude of s > 0
+   (no absolute threshold on the nugget or the variance) *)
+Section ValueScale.
+  Variable ora : nat -> list R -> R.
+  Notation RO := (Rops ora).
+
+  Lemma get_nugget_entry nugget noise n i :
+    aget 0 (get_nugget RO nugget noise n) i = if Rltb 0 nugget then sqrt nugget * aget 0 noise i else 0.
+  Proof.
+    unfold get_nugget. change (nltb RO (n0 RO) nugget) with (Rltb 0 nugget).
+    destruct (Rltb 0 nugget).
+    - change (nmul RO) with Rmult. change (nsqrt RO) with sqrt.
+      apply (aget_map0 (fun x => sqrt nugget * x)). ring.
+    - apply aget_repeat.
+  Qed.
+
+  Lemma Rltb_scale s x : 0 < s -> Rltb 0 (s * x) = Rltb 0 x.
+  Proof.
+    intros Hs. destruct (Rltb 0 x) eqn:E.
+    - apply Rltb_true in E. apply Rltb_true. now apply Rmult_lt_0_compat.
+    - apply Rltb_false in E. apply Rltb_false. nra.
+  Qed.
+
+  Theorem randmeth_value_scale s var (N : Z) nugget ks z1 z2 pos noise : 0 < s ->
+    randmeth_call RO (s * var) N (s * nugget) ks z1 z2 pos noise
+    = map (Rmult (sqrt s)) (randmeth_call RO var N nugget ks z1 z2 pos noise).
+  Proof.
+    intros Hs. unfold randmeth_call. cbv zeta. rewrite map_map. apply map_ext. intros i.
+    rewrite !get_nugget_entry, Rltb_scale by exact Hs.
+    unfold randmeth_amp. change (nadd RO) with Rplus. change (nmul RO) with Rmult.
+    change (nsqrt RO) with sqrt. change (ndiv RO) with Rdiv. change (n0 RO) with 0.
+    replace (s * var / nofZ RO N) with (s * (var / nofZ RO N)) by (unfold Rdiv; ring).
+    rewrite (sqrt_mult_alt s) by lra.
+    destruct (Rltb 0 nugget).
+    - rewrite (sqrt_mult_alt s) by lra. ring.
+    - ring.
+  Qed.
+
+  (* Fourier: the weights sqrt(S(k_j) prod(dk)) of the model with spectrum s S are sqrt(s) times those of the model with spectrum S *)
+  Theorem fourier_weights_value_scale s spec dk : 0 < s ->
+    fourier_spectrum_factor RO (map (Rmult s) spec) dk = map (Rmult (sqrt s)) (fourier_spectrum_factor RO spec dk).
+  Proof.
+    intros Hs. unfold fourier_spectrum_factor. rewrite !map_map. apply map_ext. intros a.
+    change (nsqrt RO) with sqrt. change (nmul RO) with Rmult.
+    rewrite Rmult_assoc. apply sqrt_mult_alt. lra.
+  Qed.
+End ValueScale.
